@@ -501,6 +501,7 @@ class StateProp2(StateProp):
         self.bad_calls = {}      # (fn key, what) -> node: indirect call through null / unset entry
         self.unset_reads = set()
         self.used_fns = set()
+        self._err_ret = {}
 
     # -- tokens
     def _combine(self, prev, new):
@@ -607,7 +608,7 @@ class StateProp2(StateProp):
             if self._stack_op(n) == "empty":
                 t = self._top(special, ops)
                 return {None if t is None else int(t == EMPTY)}
-            return {None}
+            return {dict(locs).get(("ret", n.get("id")))}
         if k == "ConditionalOperator" and len(c) == 3:
             t = self.truth(fn, c[0], item, special)
             if t is None:
@@ -667,10 +668,12 @@ class StateProp2(StateProp):
             if t is not None:
                 sub_special["$top"] = t
         pins.update(sub_special)
-        sub = self.run2(callee, TOP if tok == TOP else ("c", tok[1], "in"), pins)
+        sub = self.run3(callee, TOP if tok == TOP else ("c", tok[1], "in"), pins)
         out = set()
-        for stok, sops in sub:
-            out.add((self._combine(tok, stok), locs, ops + sops))
+        base = frozenset(x for x in locs if x[0] != ("ret", call.get("id")))
+        for stok, sops, ret in sub:
+            l2 = base | {(("ret", call.get("id")), ret)} if ret is not None else base
+            out.add((self._combine(tok, stok), l2, ops + sops))
         return out
 
     def _do_call(self, fn, n, item, special, callees):
@@ -699,7 +702,11 @@ class StateProp2(StateProp):
         if _is_this(obj) and callee:
             if callee == self.error_fn:
                 callees.add(callee)
-                return {(("c", self.error_value, "error"), locs, ops)}
+                ret = self._error_ret(n)
+                l2 = frozenset(x for x in locs if x[0] != ("ret", n.get("id")))
+                if ret is not None:
+                    l2 = l2 | {(("ret", n.get("id")), ret)}
+                return {(("c", self.error_value, "error"), l2, ops)}
             if self.tag_fn is not None and n.get("calleeKey") == self.tag_fn.key and "$tag" in special:
                 callees.add(callee)
                 if special["$tag"] == UNKNOWN_TAG:
@@ -724,15 +731,27 @@ class StateProp2(StateProp):
         return {item}
 
     # -- the propagation
+    def _error_ret(self, call):
+        """the constant the error function returns (CoreParser::error: 1), else None"""
+        key = call.get("calleeKey")
+        if key not in self._err_ret:
+            self._err_ret[key] = _const_return(self.facts, self.facts.functions.get(key))
+        return self._err_ret[key]
+
     def run2(self, fn, in_tok, pins=None):
         """set of (token, stack ops) at the exits of fn entered with in_tok; pins: parameter/local
         name -> value, '$tag' -> tag value or UNKNOWN_TAG, '$top' -> handler on top of the stack."""
+        return frozenset((t, o) for t, o, _ in self.run3(fn, in_tok, pins))
+
+    def run3(self, fn, in_tok, pins=None):
+        """like run2 with the returned constant as third component (None = unknown / void): keeps the
+        error exits of `if (handler(atts)) return 1;` apart from the normal exits of the callee"""
         pins = pins or {}
         mkey = (fn.key, in_tok, tuple(sorted(pins.items(), key=repr)))
         if mkey in self.memo2:
             return self.memo2[mkey]
         if mkey in self.active2:
-            return {(TOP, ())}
+            return {(TOP, (), None)}
         self.active2.add(mkey)
         try:
             out = self._run2(fn, in_tok, pins, mkey)
@@ -771,7 +790,19 @@ class StateProp2(StateProp):
                 if n is None:
                     continue
                 k = n.get("k")
-                if k == "BinaryOperator" and n.get("op") == "=":
+                if k == "ReturnStmt":
+                    val = None
+                    for x in F.children(n):
+                        val = x
+                    new = set()
+                    for it in items:
+                        l2 = frozenset(x for x in it[1] if x[0] != ("retval",))
+                        for v in (self.evs(fn, val, it, special) if val is not None else {None}):
+                            if v == ("nonnull",):
+                                v = None
+                            new.add((it[0], l2 | {(("retval",), v)} if isinstance(v, int) else l2, it[2]))
+                    items = new
+                elif k == "BinaryOperator" and n.get("op") == "=":
                     lhs, rhs = n["c"]
                     if self.is_state(lhs):
                         new = set()
@@ -808,7 +839,7 @@ class StateProp2(StateProp):
             succs = cfg.succ.get(b, [])
             if b == cfg.exit or not succs:
                 if b == cfg.exit:
-                    exits |= {(it[0], it[2]) for it in items}
+                    exits |= {(it[0], it[2], dict(it[1]).get(("retval",))) for it in items}
                 continue
             edges = {}
             termk = blk.get("termK")
@@ -853,6 +884,9 @@ class StateProp2(StateProp):
                 for s in succs:
                     edges[s] = set(items)
             for s, its in edges.items():
+                # the value of a call is only tracked up to the end of the block that made the call
+                its = {(it[0], frozenset(x for x in it[1] if not (isinstance(x[0], tuple) and x[0][0] == "ret")),
+                        it[2]) for it in its}
                 if not its <= IN[s]:
                     IN[s] |= its
                     work.append(s)
@@ -882,7 +916,7 @@ class StateProp2(StateProp):
 
 
 def _tokens(items):
-    return {t for t, _ in items}
+    return {it[0] for it in items}
 
 
 # --------------------------------------------------------------------------- shared pieces
